@@ -12,8 +12,11 @@ Oracle (implementation only): the parsed data is the data that was rendered — 
 last-wins, sections/options in order, case-insensitive option lookup —, comment and blank lines
 contribute nothing, keyword_search equals a direct filter.
 """
+import itertools
 import json
 import os
+import subprocess
+import sys
 from collections import OrderedDict
 
 from harness.common import VERIF, REPO, enc, run_driver
@@ -129,40 +132,101 @@ def stripped(s):
     return s == s.strip()
 
 
-def direct_filter(rows, rkc, kwargs):
-    """keyword search stated directly (independent of the implementation's helpers)"""
-    if not kwargs or not rows:
+def kw_of(heading):
+    """the documented keyword of a heading: only space and dash are written as '_'"""
+    return "".join("_" if ch in " -" else ch for ch in heading)
+
+
+def key_set_order(rows, rkc):
+    """the iteration order of the key set keyword_search builds (same construction, same interpreter,
+    hence the same order): the model takes it as its `order` parameter"""
+    if not rows:
         return []
+    if rkc:
+        ks = set()
+        for r in rows:
+            ks.update(r.keys())
+    else:
+        ks = set(list(rows[0].keys()))
+    return list(ks)
+
+
+def _row_ok(r, key, m, val):
+    if key not in r:
+        return False
+    s = r[key]
+    if m == "equals":
+        return s == val
+    if s is None:
+        return False
+    if m == "contains":
+        return s.find(val) >= 0
+    if m == "startswith":
+        return s[:len(val)] == val
+    if m == "endswith":
+        return len(val) <= len(s) and s[len(s) - len(val):] == val
+    return s.lower() == val.lower()
+
+
+def ks_expect(rows, rkc, kwargs):
+    """keyword search stated directly (independent of the implementation's helpers).
+    Returns (acceptable, strict, clash): `acceptable` = the results for every way of resolving a keyword
+    that is the documented keyword of SEVERAL headings; `strict` = the result when every such keyword is
+    resolved to the heading that is literally the keyword (None if some clash has no such heading);
+    `clash` = some keyword names several headings."""
+    if not kwargs or not rows:
+        return [[]], [], False
     keys = []
     for r in (rows if rkc else rows[:1]):
         for k in r:
             if k not in keys:
                 keys.append(k)
-    conds = []
+    conds, clash = [], False
     for kw, val in kwargs:
         base, sep, suf = kw.partition("__")
         dk, m = (base, suf) if (sep and suf in SUFFIXES) else (kw, "equals")
-        real = [k for k in keys if k.replace(" ", "_").replace("-", "_") == dk]
-        if not real:
-            return []
-        conds.append((real[-1], m, val))
+        cands = [k for k in keys if kw_of(k) == dk]
+        if not cands:
+            return [[]], [], False
+        clash = clash or len(cands) > 1
+        conds.append((cands, m, val))
+    acceptable = []
+    for choice in itertools.product(*[c[0] for c in conds]):
+        acceptable.append([r for r in rows if all(_row_ok(r, k, m, v) for k, (_, m, v) in zip(choice, conds))])
+    strict_keys = []
+    for (cands, _, _), (kw, _) in zip(conds, kwargs):
+        base, sep, suf = kw.partition("__")
+        dk = base if (sep and suf in SUFFIXES) else kw
+        strict_keys.append(cands[0] if len(cands) == 1 else dk if dk in cands else None)
+    strict = None
+    if None not in strict_keys:
+        strict = [r for r in rows if all(_row_ok(r, k, m, v) for k, (_, m, v) in zip(strict_keys, conds))]
+    return acceptable, strict, clash
 
-    def ok(r, key, m, val):
-        if key not in r:
-            return False
-        s = r[key]
-        if m == "equals":
-            return s == val
-        if s is None:
-            return False
-        if m == "contains":
-            return s.find(val) >= 0
-        if m == "startswith":
-            return s[:len(val)] == val
-        if m == "endswith":
-            return len(val) <= len(s) and s[len(s) - len(val):] == val
-        return s.lower() == val.lower()
-    return [r for r in rows if all(ok(r, *c) for c in conds)]
+
+def direct_filter(rows, rkc, kwargs):
+    return ks_expect(rows, rkc, kwargs)[0][-1]
+
+
+class _Parent(object):
+    """an object that can take the `_transform_cache` attribute"""
+    pass
+
+
+def table_rows(t):
+    """(rows parsed by the real helper, rows that were rendered) of a rendered table case"""
+    if t["op"] == "fixed":
+        tb = t["table"]
+        names = [n for n, _ in tb["cols"]] + [tb["lastName"]]
+        want = [OrderedDict(zip(names, row[0] + [row[1]])) for row in tb["rows"]]
+        got = parse_fixed_table(render_fixed(tb), heading_ignore=t["hi"], trailing_ignore=t["ti"])
+    else:
+        want = [OrderedDict(zip(t["names"], row)) for row in t["rows"]]
+        got = parse_delimited_table(t["lines"], delim=t["d"])
+    return got, want
+
+
+KS_FINDING = "ks-colliding-headings-hash-order"
 
 
 def ini_expect(doc):
@@ -338,15 +402,36 @@ def evaluate(c):
             O(c["d"]), c.get("m", -1), B(c.get("strip", True)), B(c.get("hsame", True)), O(c.get("hd")),
             L(c.get("hi") or []), P(c.get("sub", [])), L(c.get("ti") or []), O(c.get("rk")), L(lines)), a, fails
     if op == "ks":
-        rows = [OrderedDict(r) for r in c["rows"]]
-        kwargs = OrderedDict((k, v) for k, v in c["kwargs"])
-        r = keyword_search(rows, row_keys_change=c["rkc"], **kwargs)
-        a = show_rows(r)
-        want = direct_filter(rows, c["rkc"], c["kwargs"])
-        if [list(x.items()) for x in r] != [list(x.items()) for x in want] or any(
-                not any(x is y for y in rows) for x in r):
-            fails.append(("keyword_search(%r) = %r, the rows satisfying every condition are %r" % (c["kwargs"], r, want), None))
-        return "ks\t%s\t%s\t%s" % (B(c["rkc"]), R(rows), P(c["kwargs"])), a, fails
+        # rows given directly, or obtained by parsing a rendered table with the real helper
+        if "from" in c:
+            try:
+                rows, rendered = table_rows(c["from"])
+            except (ValueError, IndexError, ParseException) as e:
+                return "ks\t0\tL\tR\tP", err(e), [("the rendered table did not parse: %r" % e, None)]
+            if [list(x.items()) for x in rows] != [list(x.items()) for x in rendered]:
+                fails.append(("parse(render) = %r, rendered rows are %r" % (rows, rendered), None))
+        else:
+            rows = [OrderedDict(r) for r in c["rows"]]
+            rendered = rows
+        kwsets = c["kwsets"] if "kwsets" in c else [c["kwargs"]]
+        parent = _Parent() if c.get("parent") else None
+        order = key_set_order(rows, c["rkc"])
+        answers = []
+        for kws in kwsets:
+            kwargs = OrderedDict((k, v) for k, v in kws)
+            r = keyword_search(rows, parent=parent, row_keys_change=c["rkc"], **kwargs)
+            answers.append(show_rows(r))
+            acceptable, strict, clash = ks_expect(rendered, c["rkc"], kws)
+            got = [list(x.items()) for x in r]
+            if got not in [[list(x.items()) for x in w] for w in acceptable] or any(not any(x is y for y in rows) for x in r):
+                fails.append(("keyword_search(%r) = %r, the rows satisfying every condition are %r" % (kws, r, acceptable[-1]), None))
+            elif strict is not None and got != [list(x.items()) for x in strict]:
+                # a keyword that is literally a heading selected on ANOTHER heading with the same keyword
+                fails.append(("keyword_search(%r) = %r: the keyword is itself a heading, conditions on that heading select %r" % (kws, r, strict),
+                              KS_FINDING if clash else None))
+        if len(kwsets) == 1 and not c.get("parent"):
+            return "ks\t%s\t%s\t%s\t%s" % (B(c["rkc"]), L(order), R(rows), P(kwsets[0])), answers[0], fails
+        return "ksseq\t%s\t%s\t%s\t%s" % (B(c["rkc"]), L(order), R(rows), "\t".join(P(k) for k in kwsets)), " | ".join(answers), fails
     if op == "ini":
         lines = render_ini(c["doc"]) if "doc" in c else c["lines"]
         qs = [tuple(q) for q in c["qs"]]
@@ -649,6 +734,110 @@ def gen_ks(rng):
     return {"op": "ks", "rows": rows, "rkc": rng.random() < 0.4, "kwargs": kwargs}
 
 
+SPECIAL = ["Use%", "%CPU", "I/O", "Mounted.on", "size(KB)", "a:b", "rate/s", "Größe", "名前", "a%b", "a/b", "a_b", "x+y", "#id",
+           "col*", "N°", "[x]", "k=v", "q?", "Avail", "user_id", "a.b", "x__y", "é%", "A&B", "~tmp", "50%<"]
+SPACEY = ["a b", "a-b", "fix-up path", "Mounted on", "rate - s", "x y-z", "Use %", "I-O", "a  b"]
+CLASHES = [["a b", "a-b", "a_b"], ["a b", "a_b"], ["a-b", "a_b"], ["a b", "a-b"], ["I-O", "I_O"], ["x y-z", "x-y z"]]
+CELLS = ["root", "Root", "5%", "12", "/dev/sda1", "", "n/a", "1.5", "x y", "ROOT", "95%", "a", "on", "tmpfs"]
+
+
+def gen_kwsets(rng, headings, rows, nsets):
+    cells = [v for r in rows for v in r if v]
+    out = []
+    for _ in range(nsets):
+        kws, used = [], set()
+        kind = rng.choice(["one", "one", "two", "two", "plus-missing", "three"])
+        n = {"one": 1, "two": 2, "plus-missing": 2, "three": 3}[kind]
+        for i in range(n):
+            h = rng.choice(headings)
+            r = rng.random()
+            if kind == "plus-missing" and i == 1:
+                k = rng.choice(["nosuch", "Use", "%", kw_of(h) + "x", h[:-1] or "z"])
+            elif r < 0.55:
+                k = kw_of(h)                         # the documented keyword
+            elif r < 0.8:
+                k = h                                # the heading as written (recognised iff it has no space/dash)
+            elif r < 0.9:
+                k = "".join(ch if (ch.isalnum() or ch == "_") else "_" for ch in h)   # NOT the documented transformation
+            else:
+                k = rng.choice([h.lower(), h.upper(), h.replace("_", " "), h + "_"])
+            k += rng.choice(["", "", "", "__contains", "__startswith", "__endswith", "__lower_value", "__bogus"])
+            if k in used:
+                continue
+            used.add(k)
+            val = rng.choice(CELLS)
+            if cells and rng.random() < 0.75:
+                v = rng.choice(cells)
+                a, b = sorted((rng.randrange(len(v) + 1), rng.randrange(len(v) + 1)))
+                val = rng.choice([v, v, v[:b], v[a:], v[a:b], v.upper(), v.swapcase()])
+            kws.append([k, val])
+        out.append(kws)
+    return out
+
+
+def gen_ks_special(rng):
+    """rows with headings containing arbitrary characters, clashing headings, searches with a parent"""
+    heads = rng.sample(SPECIAL + SPACEY, rng.choice([1, 2, 3, 4, 5]))
+    if rng.random() < 0.25:
+        heads = list(dict.fromkeys(heads + rng.choice(CLASHES)))
+        rng.shuffle(heads)
+    rkc = rng.random() < 0.4
+    rows = []
+    for i in range(rng.choice([1, 2, 3, 5])):
+        hs = heads if (i == 0 or not rkc or rng.random() < 0.6) else rng.sample(SPECIAL + SPACEY, 2)
+        rows.append([[h, rng.choice(CELLS + [None])] for h in hs])
+    parent = rng.random() < 0.5
+    allh = heads if not rkc else list(dict.fromkeys(h for r in rows for h, _ in r))
+    return {"op": "ks", "rows": rows, "rkc": rkc, "parent": parent,
+            "kwsets": gen_kwsets(rng, allh, [[v for _, v in r] for r in rows], rng.choice([2, 3, 4]) if parent else 1)}
+
+
+def gen_tab_ks(rng):
+    """a rendered table with special-character headings, parsed by the real helper, then searched"""
+    n = rng.choice([1, 2, 3, 4])
+    if rng.random() < 0.5:
+        names = rng.sample([h for h in SPECIAL], n)
+        cols = [(nm, len(nm) + rng.choice([1, 2, 5])) for nm in names[:-1]]
+        rows = []
+        for _ in range(rng.choice([1, 2, 4])):
+            cells = [rng.choice([x for x in CELLS if len(x) <= w]) for _, w in cols]
+            last = rng.choice(CELLS)
+            if not any(cells + [last]):
+                last = "z"
+            rows.append([cells, last, 0])
+        t = {"op": "fixed", "hi": [], "ti": [], "oracle": True,
+             "table": {"junk": [], "lead": rng.choice([0, 0, 2]), "cols": cols, "lastName": names[-1], "lastPad": 0, "rows": rows, "footer": []}}
+        data = [r[0] + [r[1]] for r in rows]
+    else:
+        d = rng.choice([",", "|", ";"])
+        names = rng.sample([h for h in SPECIAL + SPACEY if d not in h], n)
+        if rng.random() < 0.2:
+            names = list(dict.fromkeys(names + rng.choice(CLASHES)))
+        data = []
+        for _ in range(rng.choice([1, 2, 4])):
+            row = [rng.choice([x for x in CELLS if d not in x]) for _ in names]
+            if len(names) == 1 and not row[0]:
+                row = ["z"]
+            data.append(row)
+        t = {"op": "delim", "d": d, "names": names, "rows": data, "lines": [d.join(names)] + [d.join(r) for r in data], "oracle": True}
+    parent = rng.random() < 0.6
+    return {"op": "ks", "from": t, "rkc": rng.random() < 0.3, "parent": parent,
+            "kwsets": gen_kwsets(rng, names, data, rng.choice([2, 3]) if parent else 1)}
+
+
+def clash_witness():
+    """known finding: with headings 'a b' and 'a_b' the keyword a_b selects on whichever comes last in the
+    hash order of the key set; child interpreters under several PYTHONHASHSEED values"""
+    code = ("import sys; sys.path.insert(0, %r); from insights.parsers import keyword_search; "
+            "print(len(keyword_search([{'a b': 'x', 'a_b': 'y'}], a_b='y')))" % REPO)
+    seen = {}
+    for hs in range(8):
+        env = dict(os.environ, PYTHONHASHSEED=str(hs))
+        p = subprocess.run([sys.executable, "-c", code], env=env, stdout=subprocess.PIPE, stderr=subprocess.PIPE, timeout=120)
+        seen[hs] = p.stdout.decode().strip() or "error"
+    return seen
+
+
 INI_SECS = ["main", "a b", "DEFAULT", "MY_DEFAULTS", "DEFAULTS", "default", "s-1", "x.y", "main"]
 INI_OPTS = ["key", "Key", "KEY", "other", "x y", "log_level", "a.b", "n1"]
 INI_VALS = ["v", "1", "true", "No", "ON", "two words", "a = b", "x:y", "", "/p/q;r", "100%", "Yes", "off", "0"]
@@ -750,8 +939,10 @@ def run(chk):
         "the INI grammar (insights/parsr/iniparser.py, an instance of the combinator library of C19) is not proved: it is tied on rendered "
         "documents to the model's line-level reading parseIni by the 'ini' stream; the theorems about IniConfigFile are over the tree it returns",
         "str.lower is modelled on ASCII; str.isspace is a table compared with the live interpreter over all code points on every run",
-        "keyword_search: search values are strings, parent=None (the key-transform cache on a parent object is not modelled); the key SET is "
-        "taken in first-occurrence order and the generators keep transformed keys distinct",
+        "keyword_search: search values are strings; the iteration order of the key SET (hash order) is a parameter of the model, observed in "
+        "the interpreter by rebuilding the set the same way and checked by the driver to be a permutation of the key set; headings with the "
+        "same keyword are resolved by that order (the later heading wins) in code and model alike — see known finding "
+        "ks-colliding-headings-hash-order; the `_transform_cache` on a parent is modelled for repeated searches over the SAME rows",
         "translate/matchers.py (ast -> Lean) is trusted for the shape of the five lambda bodies; Props.C15.matchers_spec pins their meaning",
     ]
     # ---- 0. matcher table from the live source
@@ -783,7 +974,9 @@ def run(chk):
     add(gen_fixed_irregular, 500)
     add(gen_delim, 600)
     add(gen_delim_irregular, 400)
-    add(gen_ks, 800)
+    add(gen_ks, 500)
+    add(gen_ks_special, 500)
+    add(gen_tab_ks, 300)
     add(gen_ini, 500, False)
     add(gen_ini, 300, True)
     add(gen_ini_irregular, 200)
@@ -809,6 +1002,14 @@ def run(chk):
             chk.failure(desc, c, finding=fid)
         if fname and not finding:
             chk.witnesses.append({"file": fname, "regression": True, "passes": not fails})
+    # known finding: clashing headings are resolved by hash order
+    try:
+        seen = clash_witness()
+        chk.witnesses.append({"finding": KS_FINDING, "rows_found_per_PYTHONHASHSEED": seen})
+        if len(set(seen.values())) > 1 or "0" in seen.values():
+            chk.finding_reproduced(KS_FINDING)
+    except Exception as e:
+        chk.witnesses.append({"finding": KS_FINDING, "error": str(e)})
     out = run_driver("C15", lines)
     # the white-space table and the matcher names
     py_spaces = " ".join(str(i) for i in range(0x110000) if not (0xd800 <= i <= 0xdfff) and chr(i).isspace())
